@@ -74,8 +74,8 @@ func (u *recW) Write(b []byte) (int, error) {
 type slogRec struct{ run *mwRun }
 
 func (h slogRec) Enabled(context.Context, slog.Level) bool { return true }
-func (h slogRec) WithAttrs([]slog.Attr) slog.Handler      { return h }
-func (h slogRec) WithGroup(string) slog.Handler           { return h }
+func (h slogRec) WithAttrs([]slog.Attr) slog.Handler       { return h }
+func (h slogRec) WithGroup(string) slog.Handler            { return h }
 func (h slogRec) Handle(_ context.Context, r slog.Record) error {
 	switch r.Message {
 	case "HTTP handler panic recovered":
